@@ -1,5 +1,5 @@
 (* Pinned statements for C07: a changed statement or a new axiom fails the check. *)
-From SwimV Require Import Model.DlRuntime Proofs.DlRuntimeProofs Proofs.DlWriteProofs Props.C07.
+From SwimV Require Import Model.DlMapWrite Proofs.MapQueueProofs Proofs.DlMapWriteProofs Model.DlRuntime Proofs.DlRuntimeProofs Proofs.DlWriteProofs Props.C07.
 Open Scope N_scope.
 Check (C07_shared_runtime_is_private_sessions) : (forall single c sync es, (attaches c es <= 1)%nat -> flags_ok c sync es -> seen_by c (snd (rrun single rstate0 es)) = session single c sync sess0 es).
 Print Assumptions C07_shared_runtime_is_private_sessions.
@@ -15,3 +15,5 @@ Check (C07_link_is_sent_first) : (forall es, exists rest, w_sent (wrun es) = FLi
 Print Assumptions C07_link_is_sent_first.
 Check (C07_sync_is_sent_for_a_joiner) : (forall es1 es2, w_pending (wrun (es1 ++ WProducer true :: es2)) = None -> (count_sync (w_sent (wrun es1)) < count_sync (w_sent (wrun (es1 ++ WProducer true :: es2))))%nat).
 Print Assumptions C07_sync_is_sent_for_a_joiner.
+Check (C07_map_commands_converge) : (forall d h es, h < W -> len es + 2 < W -> let s := mwrun h es in effs d (events (mw_queue s)) (effs d (applied s) None) = effs d (ops_given es) None /\ (mw_pending s = None -> effs d (ops_of (mw_sent s)) None = effs d (ops_given es) None)).
+Print Assumptions C07_map_commands_converge.
